@@ -770,6 +770,12 @@ Section WithEnv.
     name ++ [0] ++ repeatN 0 ((4 - namelen mod 4) mod 4) ++
     (if descsz =? 0 then [] else desc ++ repeatN 0 ((4 - descsz mod 4) mod 4)).
 
+  (* add_note on the section itself: append the record, remember where it starts *)
+  Definition note_add_sec (xe : bool) (enc : endian) (s : section) (starts : list N) (type : N) (name desc : bytes)
+    : res (section * list N) :=
+    s1 <- append_data junk xe s (enc_note enc type name desc) ;;
+    Ok (s1, starts ++ [sh_size s]).
+
   Definition note_add (el : elfio) (a : note_acc) (type : N) (name desc : bytes) : res (elfio * note_acc) :=
     match na_target a with
     | NoteSeg _ => Fault NullDeref     (* not instantiable for segments *)
@@ -777,8 +783,8 @@ Section WithEnv.
         match get_sec el i with
         | None => Fault NullDeref
         | Some s =>
-            s1 <- append_data junk (xe el) s (enc_note (el_enc el) type name desc) ;;
-            Ok (upd_sec el i s1, mkNoteAcc (na_target a) (na_starts a ++ [sh_size s]))
+            '(s1, starts1) <- note_add_sec (xe el) (el_enc el) s (na_starts a) type name desc ;;
+            Ok (upd_sec el i s1, mkNoteAcc (na_target a) starts1)
         end
     end.
 
